@@ -298,6 +298,11 @@ func (p *parser) parseByteSequence() ([]byte, error) {
 		return nil, errors.New("structuredheader: missing closing '*'")
 	}
 	s := p.getString(len)
+	for i := 0; i < len; i++ {
+		if c := s[i]; !isAlpha(c) && !isDigit(c) && c != '+' && c != '/' && c != '=' {
+			return nil, fmt.Errorf("structuredheader: invalid character \\x%02x in byte sequence", c)
+		}
+	}
 	enc := base64.StdEncoding
 	if len%4 != 0 {
 		// Allow unpadded encoding.
